@@ -468,6 +468,34 @@ theorem await_status_outcomes (c c' : Ctx) (now : Int) (addr : Nat)
 
 /-! ### The exception: the post-claim sweep of `ClaimToken` polls the whole GAP -/
 
+/-- Claiming the token: two token telegrams TS → TS (each after the synchronisation pause); each
+sets the LAS valid and (re)sets the GAP cursor to the own address, so the scan that follows starts
+with `next_gap_poll(TS)` and — by `sweep_exact` — covers the whole GAP. -/
+theorem claim_token_step (c : Ctx) (now : Int) (fuel : Nat) (step : ClaimStep)
+    (hstep : step = .firstToken ∨ step = .secondToken) (hst : c.s.st = .claimToken step)
+    (htx : c.tx = none) (hw : SyncOver c.s now) :
+    doClaimToken c now (fuel + 1) =
+      .ok { c with
+        tx := some (tokenBytes c.s.p.address c.s.p.address),
+        s := { (markTx (stamped c.s now) now 3) with
+          ring := c.s.ring.claimToken,
+          st := .claimToken (if step = .firstToken then .secondToken else .scan),
+          gap := .doPoll c.s.p.address } } := by
+  have hw' : (waitSyncPause c.s now).2 = false := hw
+  unfold doClaimToken
+  rw [hst]
+  rcases hstep with rfl | rfl <;>
+    simp [hw', sync_stamped, transmit, htx, Res.bind, upd, markTx, tokenBytes, sendToken]
+
+theorem claim_token_step_waits (c : Ctx) (now : Int) (fuel : Nat) (step : ClaimStep)
+    (hstep : step = .firstToken ∨ step = .secondToken) (hst : c.s.st = .claimToken step)
+    (hw : ¬ SyncOver c.s now) :
+    doClaimToken c now (fuel + 1) = .ok { c with s := stamped c.s now } := by
+  have hw' : (waitSyncPause c.s now).2 = true := by simpa [SyncOver] using hw
+  unfold doClaimToken
+  rw [hst]
+  rcases hstep with rfl | rfl <;> simp [hw', sync_stamped]
+
 /-- While the synchronisation pause is not over the scan step does nothing. -/
 theorem claim_scan_waits (c : Ctx) (now : Int) (fuel : Nat) (hst : c.s.st = .claimToken .scan)
     (hw : ¬ SyncOver c.s now) : doClaimToken c now (fuel + 1) = .ok { c with s := stamped c.s now } := by
@@ -771,6 +799,282 @@ theorem claim_scan_after_admission (c : Ctx) (now : Int) (fuel addr : Nat)
     rw [hns, sweep_ends_at_new_successor c.s.p.address c.s.p.hsa addr hts hh ha hne]
   rw [this]
 
+/-! ## 4. Truthful status replies -/
+
+/-! ### Which requests are taken up -/
+
+/-- `ListenToken`: an FDL status request addressed to us (from another address) is taken up iff it
+is the last telegram of its batch; its source address is remembered. -/
+theorem listen_records_request (c : Ctx) (l : Bool) (sr : Option Nat) (coll : Nat) (h : Header) (pdu : Bytes)
+    (fcb : FrameCountBit) (hon : c.s.online = true) (hst : c.s.st = .listenToken sr coll)
+    (hfc : h.fc = .request fcb .fdlStatus) (hda : h.da.toNat = c.s.p.address) (hsa : h.sa.toNat ≠ c.s.p.address) :
+    listenTelegramCore c (.data h pdu) l =
+      if l then .ok (upd c fun s => { s with st := .listenToken (some h.sa.toNat) coll }) else .ok c := by
+  unfold listenTelegramCore
+  simp only [hon, Bool.not_true, Bool.false_eq_true, if_false, hst, Telegram.sourceAddress, Option.map_some,
+    Option.some.injEq, hsa, hfc, hda, true_and]
+
+/-- … and nothing else changes the remembered requester: only a status request with DA = own address,
+flagged as last telegram of the batch. -/
+theorem listen_request_only_if (c c' : Ctx) (t : Telegram) (l : Bool) (sr sr' : Option Nat) (coll coll' : Nat)
+    (hst : c.s.st = .listenToken sr coll) (h : listenTelegramCore c t l = .ok c')
+    (hst' : c'.s.st = .listenToken sr' coll') (hne : sr' ≠ sr) :
+    ∃ hd pdu fcb, t = .data hd pdu ∧ hd.fc = .request fcb .fdlStatus ∧ hd.da.toNat = c.s.p.address ∧
+      l = true ∧ sr' = some hd.sa.toNat ∧ hd.sa.toNat ≠ c.s.p.address := by
+  unfold listenTelegramCore at h
+  split at h
+  · cases h; rw [hst] at hst'; cases hst'; exact absurd rfl hne
+  · rw [hst] at h
+    simp only at h
+    split at h
+    · split at h
+      · cases h; simp [upd] at hst'; exact absurd hst'.1.symm hne
+      · have h' := Res.ok.inj h
+        rw [← h'] at hst'
+        simp [upd, Station.setOffline, Station.new] at hst'
+    · rename_i hsrc
+      cases t with
+      | sc => cases h; rw [hst] at hst'; cases hst'; exact absurd rfl hne
+      | token da sa => cases h; simp [upd, hst] at hst'; exact absurd hst'.1.symm hne
+      | data hd pdu =>
+        simp only at h
+        split at h
+        · rename_i fcb hfc
+          split at h
+          · rename_i hcond
+            cases h
+            simp [upd] at hst'
+            refine ⟨hd, pdu, fcb, rfl, hfc, hcond.1, hcond.2, hst'.1.symm, ?_⟩
+            intro hh
+            apply hsrc
+            simp [Telegram.sourceAddress, hh]
+          · cases h; rw [hst] at hst'; cases hst'; exact absurd rfl hne
+        · cases h; rw [hst] at hst'; cases hst'; exact absurd rfl hne
+
+/-- `ActiveIdle` (`handle_telegram`): a status request with DA = own address that is the last
+telegram of its batch is taken up (here the source address is not compared with the own address). -/
+theorem active_idle_records_request (c : Ctx) (now : Int) (l : Bool) (sr np : Option Nat) (coll : Nat)
+    (h : Header) (pdu : Bytes) (fcb : FrameCountBit) (hst : c.s.st = .activeIdle sr np coll)
+    (hfc : h.fc = .request fcb .fdlStatus) (hda : h.da.toNat = c.s.p.address) :
+    handleTelegram c now (.data h pdu) l =
+      if l then .ok (upd c fun s => { s with st := .activeIdle (some h.sa.toNat) np coll }) else .ok c := by
+  unfold handleTelegram
+  simp only [hst, hfc, hda, true_and]
+
+theorem active_idle_request_only_if (c c' : Ctx) (now : Int) (t : Telegram) (l : Bool) (sr sr' np np' : Option Nat)
+    (coll coll' : Nat) (hst : c.s.st = .activeIdle sr np coll) (h : handleTelegram c now t l = .ok c')
+    (hst' : c'.s.st = .activeIdle sr' np' coll') (hne : sr' ≠ sr) :
+    ∃ hd pdu fcb, t = .data hd pdu ∧ hd.fc = .request fcb .fdlStatus ∧ hd.da.toNat = c.s.p.address ∧
+      l = true ∧ sr' = some hd.sa.toNat := by
+  unfold handleTelegram at h
+  rw [hst] at h
+  simp only at h
+  cases t with
+  | sc => cases h; rw [hst] at hst'; cases hst'; exact absurd rfl hne
+  | token da sa =>
+    simp only at h
+    split at h
+    · split at h
+      · cases h; simp [upd] at hst'; exact absurd hst'.1.symm hne
+      · simp only [tr, toListenToken, upd] at h; cases h; simp at hst'
+    · split at h
+      · cases h; simp [upd] at hst'; exact absurd hst'.1.symm hne
+      · split at h
+        · simp only [tr, toUseToken, upd] at h; cases h; simp at hst'
+        · split at h
+          · simp only [tr, toUseToken, upd] at h; cases h; simp at hst'
+          · cases h; simp [upd] at hst'; exact absurd hst'.1.symm hne
+  | data hd pdu =>
+    simp only at h
+    split at h
+    · rename_i fcb hfc
+      split at h
+      · rename_i hcond
+        cases h
+        simp [upd] at hst'
+        exact ⟨hd, pdu, fcb, rfl, hfc, hcond.1, hcond.2, hst'.1.symm⟩
+      · cases h; rw [hst] at hst'; cases hst'; exact absurd rfl hne
+    · cases h; rw [hst] at hst'; cases hst'; exact absurd rfl hne
+
+/-! ### What is answered, and when -/
+
+/-- `ListenToken` with a pending request: nothing is sent before the bus has been idle for the
+synchronisation pause (33 bit times since the last bus activity; `min_tsdr_bits` is not consulted by
+the code). -/
+theorem listen_reply_waits (c : Ctx) (now : Int) (src coll : Nat) (hst : c.s.st = .listenToken (some src) coll)
+    (hl : ¬ TokenLost c.s now) (hw : ¬ SyncOver c.s now) :
+    doListenToken c now = .ok { c with s := stamped c.s now } := by
+  have hw' : (waitSyncPause (stamped c.s now) now).2 = true := by
+    have : ¬ SyncOver (stamped c.s now) now := fun h => hw ((syncOver_stamped c.s now).mp h)
+    simpa [SyncOver] using this
+  unfold doListenToken
+  rw [hst]
+  simp only [handleLostToken_none c now hl, stamped_st, hst, hw', if_true, sync_stamped, stamped_stamped]
+
+/-- **`status_reply_truthful` (ListenToken)**: at the first poll after the pause the station sends ONE
+status response to the requester, with its own address as SA, reporting
+`MasterWithoutToken` ("ready") iff the LAS is valid and the requester is the registered predecessor,
+otherwise `MasterNotReady`.  If the LAS is valid it considers itself in the ring from now on
+(`ActiveIdle`) — whoever asked —, otherwise it keeps listening; the request is consumed. -/
+theorem listen_reply (c : Ctx) (now : Int) (src coll : Nat) (hst : c.s.st = .listenToken (some src) coll)
+    (htx : c.tx = none) (hl : ¬ TokenLost c.s now) (hw : SyncOver c.s now) :
+    doListenToken c now =
+      .ok { c with
+        tx := some (statusResponseBytes src c.s.p.address (listenReport c.s src)),
+        s := { (markTx (stamped c.s now) now 6) with
+          st := if c.s.ring.readyForRing = true then FState.activeIdle none none 0 else FState.listenToken none coll } } := by
+  have hw' : (waitSyncPause (stamped c.s now) now).2 = false := (syncOver_stamped c.s now).mpr hw
+  unfold doListenToken
+  rw [hst]
+  simp only [handleLostToken_none c now hl, stamped_st, hst, hw', Bool.false_eq_true, if_false, sync_stamped,
+    stamped_stamped, stamped_ring, stamped_p]
+  have hser := statusResponse_serialize src c.s.p.address (listenReport c.s src)
+  unfold listenReport at hser
+  simp only [encodeOrPanic, hser, transmit, htx, Res.bind, statusResponseBytes_length]
+  by_cases hr : c.s.ring.readyForRing = true
+  · simp [hr, tr, toActiveIdle, markTx, hst, listenReport]
+  · simp [hr, upd, markTx, listenReport]
+
+/-- `ActiveIdle` with a pending request: the same pause … -/
+theorem active_idle_reply_waits (c : Ctx) (now : Int) (src : Nat) (np : Option Nat) (coll : Nat)
+    (hst : c.s.st = .activeIdle (some src) np coll) (hl : ¬ TokenLost c.s now) (hw : ¬ SyncOver c.s now) :
+    doActiveIdle c now = .ok { c with s := stamped c.s now } := by
+  have hw' : (waitSyncPause (stamped c.s now) now).2 = true := by
+    have : ¬ SyncOver (stamped c.s now) now := fun h => hw ((syncOver_stamped c.s now).mp h)
+    simpa [SyncOver] using this
+  unfold doActiveIdle
+  rw [hst]
+  simp only [handleLostToken_none c now hl, stamped_st, hst, hw', if_true, sync_stamped, stamped_stamped]
+
+/-- **`status_reply_truthful` (ActiveIdle)**: … then ONE status response to the requester reporting
+`MasterInRing`; the request is consumed, everything else stays. -/
+theorem active_idle_reply (c : Ctx) (now : Int) (src : Nat) (np : Option Nat) (coll : Nat)
+    (hst : c.s.st = .activeIdle (some src) np coll) (htx : c.tx = none) (hl : ¬ TokenLost c.s now)
+    (hw : SyncOver c.s now) :
+    doActiveIdle c now =
+      .ok { c with
+        tx := some (statusResponseBytes src c.s.p.address .masterInRing),
+        s := { (markTx (stamped c.s now) now 6) with st := .activeIdle none np coll } } := by
+  have hw' : (waitSyncPause (stamped c.s now) now).2 = false := (syncOver_stamped c.s now).mpr hw
+  unfold doActiveIdle
+  rw [hst]
+  simp only [handleLostToken_none c now hl, stamped_st, hst, hw', Bool.false_eq_true, if_false, sync_stamped,
+    stamped_stamped, stamped_p]
+  have hser := statusResponse_serialize src c.s.p.address .masterInRing
+  simp only [encodeOrPanic, hser, transmit, htx, Res.bind, statusResponseBytes_length]
+  simp [upd, markTx]
+
+/-- **Status responses are sent only as answers**: whatever a listening station receives, the only
+telegrams `do_listen_token` ever transmits are (i) the status response to the remembered requester,
+with the truthful state, after the pause, or (ii) — after the token-lost time-out — the token
+telegram TS → TS that claims the token.  In particular without a remembered request no status
+response is sent. -/
+theorem listen_transmits_only_reply (c c' : Ctx) (now : Int) (sr : Option Nat) (coll : Nat) (bytes : Bytes)
+    (hst : c.s.st = .listenToken sr coll) (htx : c.tx = none)
+    (h : doListenToken c now = .ok c') (hb : c'.tx = some bytes) :
+    (TokenLost c.s now ∧ bytes = tokenBytes c.s.p.address c.s.p.address) ∨
+    (¬ TokenLost c.s now ∧ SyncOver c.s now ∧
+      ∃ src, sr = some src ∧ bytes = statusResponseBytes src c.s.p.address (listenReport c.s src)) := by
+  by_cases hl : TokenLost c.s now
+  · left
+    refine ⟨hl, ?_⟩
+    unfold doListenToken at h
+    rw [hst] at h
+    simp only [handleLostToken_lost c now hl, toClaimToken, stamped_st, hst] at h
+    obtain ⟨c1, hc1⟩ : ∃ c1 : Ctx, c1 = { c with s := { (stamped c.s now) with st := .claimToken .firstToken } } := ⟨_, rfl⟩
+    rw [← hc1] at h
+    have h1 : c1.s.st = .claimToken .firstToken := by rw [hc1]
+    have h2 : c1.tx = none := by rw [hc1]; exact htx
+    by_cases hw : SyncOver c1.s now
+    · rw [claim_token_step c1 now 1 .firstToken (Or.inl rfl) h1 h2 hw] at h
+      cases h
+      simp only [Option.some.injEq] at hb
+      have h3 : c1.s.p = c.s.p := by rw [hc1]; rfl
+      rw [← hb, h3]
+    · rw [claim_token_step_waits c1 now 1 .firstToken (Or.inl rfl) h1 hw] at h
+      cases h
+      rw [h2] at hb
+      cases hb
+  · right
+    refine ⟨hl, ?_⟩
+    cases sr with
+    | some src =>
+      by_cases hw : SyncOver c.s now
+      · rw [listen_reply c now src coll hst htx hl hw] at h
+        cases h
+        simp only [Option.some.injEq] at hb
+        exact ⟨hw, src, rfl, hb.symm⟩
+      · rw [listen_reply_waits c now src coll hst hl hw] at h
+        cases h
+        rw [htx] at hb
+        cases hb
+    | none =>
+      exfalso
+      unfold doListenToken at h
+      rw [hst] at h
+      simp only [handleLostToken_none c now hl, stamped_st, hst] at h
+      split at h
+      · cases h
+      · cases h
+      · have := foldTelegrams_tx (listenTelegram now) (listenTelegram_tx now) _ _ _ h
+        rw [this, htx] at hb
+        cases hb
+
+/-- The same for a station in the ring (`ActiveIdle`): only the `MasterInRing` response to the
+remembered requester, or the claiming token after the token-lost time-out. -/
+theorem active_idle_transmits_only_reply (c c' : Ctx) (now : Int) (sr np : Option Nat) (coll : Nat) (bytes : Bytes)
+    (hst : c.s.st = .activeIdle sr np coll) (htx : c.tx = none)
+    (h : doActiveIdle c now = .ok c') (hb : c'.tx = some bytes) :
+    (TokenLost c.s now ∧ bytes = tokenBytes c.s.p.address c.s.p.address) ∨
+    (¬ TokenLost c.s now ∧ SyncOver c.s now ∧
+      ∃ src, sr = some src ∧ bytes = statusResponseBytes src c.s.p.address .masterInRing) := by
+  by_cases hl : TokenLost c.s now
+  · left
+    refine ⟨hl, ?_⟩
+    unfold doActiveIdle at h
+    rw [hst] at h
+    simp only [handleLostToken_lost c now hl, toClaimToken, stamped_st, hst] at h
+    obtain ⟨c1, hc1⟩ : ∃ c1 : Ctx, c1 = { c with s := { (stamped c.s now) with st := .claimToken .firstToken } } := ⟨_, rfl⟩
+    rw [← hc1] at h
+    have h1 : c1.s.st = .claimToken .firstToken := by rw [hc1]
+    have h2 : c1.tx = none := by rw [hc1]; exact htx
+    by_cases hw : SyncOver c1.s now
+    · rw [claim_token_step c1 now 1 .firstToken (Or.inl rfl) h1 h2 hw] at h
+      cases h
+      simp only [Option.some.injEq] at hb
+      have h3 : c1.s.p = c.s.p := by rw [hc1]; rfl
+      rw [← hb, h3]
+    · rw [claim_token_step_waits c1 now 1 .firstToken (Or.inl rfl) h1 hw] at h
+      cases h
+      rw [h2] at hb
+      cases hb
+  · right
+    refine ⟨hl, ?_⟩
+    cases sr with
+    | some src =>
+      by_cases hw : SyncOver c.s now
+      · rw [active_idle_reply c now src np coll hst htx hl hw] at h
+        cases h
+        simp only [Option.some.injEq] at hb
+        exact ⟨hw, src, rfl, hb.symm⟩
+      · rw [active_idle_reply_waits c now src np coll hst hl hw] at h
+        cases h
+        rw [htx] at hb
+        cases hb
+    | none =>
+      exfalso
+      unfold doActiveIdle at h
+      rw [hst] at h
+      simp only [handleLostToken_none c now hl, stamped_st, hst] at h
+      split at h
+      · cases h
+      · cases h
+      · have := foldTelegrams_tx _ (fun c c' t l hh => by
+            have := handleTelegram_tx _ c' now t l hh
+            simpa [upd] using this) _ _ _ h
+        rw [this, htx] at hb
+        cases hb
+
 /-! ## Non-vacuity of the station-level theorems: a concrete station 7 (HSA 126, NS 20, PS 3) -/
 
 def demoP : Params :=
@@ -828,5 +1132,24 @@ example : obs (doAwaitStatusResponse (demo (.awaitStatus 9) (.doPoll 9) (statusR
 example : obs (doAwaitStatusResponse (demo (.awaitStatus 9) (.doPoll 9) (statusResponseBytes 7 9 .slave)) 1000) =
     some (.passToken false .first, .doPoll 9, none, 20) := by decide
 example : replyOf 7 9 (.data (fdlStatusResponseHeader 7 9 .masterWithoutToken .ok) []) = some (.masterWithoutToken, .ok) := by decide
+-- 4. a listening station 7 (LAS valid, PS = 3): "ready" to its predecessor 3, "not ready" to 5 — but in
+-- both cases it moves to ActiveIdle; with the LAS not yet valid "not ready" and it keeps listening;
+-- in the ring it answers "in ring"
+example : ¬ TokenLost (demo (.listenToken (some 3) 0) (.doPoll 7) []).s 1000 := by decide
+example : obs (doListenToken (demo (.listenToken (some 3) 0) (.doPoll 7) []) 1000) =
+    some (.activeIdle none none 0, .doPoll 7, some (statusResponseBytes 3 7 .masterWithoutToken), 20) := by decide
+example : obs (doListenToken (demo (.listenToken (some 5) 0) (.doPoll 7) []) 1000) =
+    some (.activeIdle none none 0, .doPoll 7, some (statusResponseBytes 5 7 .masterNotReady), 20) := by decide
+example : obs (doListenToken (demo (.listenToken (some 3) 0) (.doPoll 7) [] .verification) 1000) =
+    some (.listenToken none 0, .doPoll 7, some (statusResponseBytes 3 7 .masterNotReady), 20) := by decide
+example : obs (doActiveIdle (demo (.activeIdle (some 5) none 0) (.doPoll 7) []) 1000) =
+    some (.activeIdle none none 0, .doPoll 7, some (statusResponseBytes 5 7 .masterInRing), 20) := by decide
+-- a request 3 → 7 is taken up only as the last telegram of its batch
+example : obs (listenTelegramCore (demo (.listenToken none 0) (.doPoll 7) []) (.data (fdlStatusRequestHeader 7 3) []) true) =
+    some (.listenToken (some 3) 0, .doPoll 7, none, 20) := by decide
+example : obs (listenTelegramCore (demo (.listenToken none 0) (.doPoll 7) []) (.data (fdlStatusRequestHeader 7 3) []) false) =
+    some (.listenToken none 0, .doPoll 7, none, 20) := by decide
+example : obs (listenTelegramCore (demo (.listenToken none 0) (.doPoll 7) []) (.data (fdlStatusRequestHeader 8 3) []) true) =
+    some (.listenToken none 0, .doPoll 7, none, 20) := by decide
 
 end PV.C12
